@@ -45,7 +45,9 @@ CONSTANTS N,          \* max containers in the snapshot
           Prios,      \* priority values
           InRuns,     \* subset of {"no", "live", "exited"}
           Lates,      \* subset of BOOLEAN
-          MaxIdle, MaxBoot,
+          MaxIdle,
+          BootVals,   \* numbers of booting workers per type (3 or more: unallocated workers remain after two
+                      \* containers of the type have been handled in the pass)
           QLefts,     \* initial qleft values (0 = at quota; 9 = never reached here)
           CreateOKs, StartOKs,  \* sets of functions 1..NT -> BOOLEAN
           Readies     \* how many booting workers may become idle DURING the pass (0 .. Readies)
@@ -71,7 +73,7 @@ Snapshots == UNION {{s \in [1 .. n -> CtrSpace] : \A k \in 1 .. n - 1 : s[k].pri
                     : n \in 1 .. N}
 
 Init ==
-    \E s \in Snapshots, q \in QLefts, id \in [T -> 0 .. MaxIdle], bo \in [T -> 0 .. MaxBoot],
+    \E s \in Snapshots, q \in QLefts, id \in [T -> 0 .. MaxIdle], bo \in [T -> BootVals],
        co \in CreateOKs, so \in StartOKs, rd \in 0 .. Readies :
       \E la \in [DOMAIN s -> Lates] :
         /\ C!RCInit(s, q)
